@@ -344,6 +344,9 @@ func (p *CFListChannelMaskPayload) UnmarshalBinary(uplink bool, data []byte) err
 	var chMaskNil ChMask
 	var pending []ChMask
 
+	// do not keep the channel-masks of a previous decode
+	p.ChannelMasks = nil
+
 	for i := 0; i < len(data)/2; i++ {
 		var cm ChMask
 		if err := cm.UnmarshalBinary(data[i*2 : (i*2)+2]); err != nil {
